@@ -14,16 +14,32 @@ Fixpoint le_bytes (n : nat) (w : Z) : list Z :=
 Definition CALL_BYTES : list Z := [64; 232; 0; 0; 0; 0].
 Definition CALL_LEN : Z := 6.
 
-Definition site_entry (text_off : Z) (c : Z * Z) : rentry :=
-  {| e_kind := RAddrEntry 232; e_secoff := text_off; e_off := fst c; e_lead := 2; e_region := CALL_LEN;
-     e_fmt := sfmt 4; e_payload := snd c; e_old := 0 |}.
+(* the relocation sites the scenarios create in .text *)
+Inductive site :=
+| SCall (pos addr : Z)            (* `call abs` at .text offset pos: RelocType::kX64AddressEntry, payload = the absolute target *)
+| SAbs (pos target loff : Z).     (* embed_label: 8 bytes at pos, RelocType::kRelToAbs, payload = the label's offset loff inside section `target` *)
+
+Definition ABS_LEN : Z := 8.
+Definition site_pos (c : site) : Z := match c with SCall p _ => p | SAbs p _ _ => p end.
+Definition site_len (c : site) : Z := match c with SCall _ _ => CALL_LEN | SAbs _ _ _ => ABS_LEN end.
+
+Definition site_entry (h : holder) (text_off : Z) (c : site) : rentry :=
+  match c with
+  | SCall pos addr =>
+    {| e_kind := RAddrEntry 232; e_secoff := text_off; e_off := pos; e_lead := 2; e_region := CALL_LEN;
+       e_fmt := sfmt 4; e_payload := addr; e_old := 0 |}
+  | SAbs pos target loff =>
+    {| e_kind := RRelToAbs (match by_id h target with Some ts => Some (soff ts) | None => None end);
+       e_secoff := text_off; e_off := pos; e_lead := 0; e_region := ABS_LEN;
+       e_fmt := ufmt 8; e_payload := loff; e_old := 0 |}
+  end.
 
 (* what relocate_to_base writes for one entry: the value word (little endian) and, for an address-table call, the two
-   bytes in front of it *)
+   bytes in front of it (such an entry is refused unless two bytes exist in front of the value) *)
 Definition patch_site (data : list Z) (e : rentry) (o : rout) : list Z :=
   let d1 := write_at data (e_off e + e_lead e) (le_bytes (Z.to_nat (vsize (e_fmt e))) (o_word o)) in
   match o_rewrite o with
-  | Some (b0, b1) => write_at d1 (e_off e + e_lead e - 2) [b0; b1]
+  | Some (b0, b1) => if 2 <=? e_off e + e_lead e then write_at d1 (e_off e + e_lead e - 2) [b0; b1] else d1
   | None => d1
   end.
 
@@ -41,8 +57,8 @@ Definition is_last (h : holder) (id : Z) : bool :=
   match rev h with l :: _ => sid l =? id | [] => false end.
 
 (* `RelocEntry` bounds check of relocate_to_base: source_offset < buffer_size and buffer_size - source_offset >= region_size *)
-Definition site_in_bounds (text : section) (c : Z * Z) : bool :=
-  (0 <=? fst c) && (fst c <? sbsize text) && (CALL_LEN <=? sbsize text - fst c).
+Definition site_in_bounds (text : section) (c : site) : bool :=
+  (0 <=? site_pos c) && (site_pos c <? sbsize text) && (site_len c <=? sbsize text - site_pos c).
 
 (* relocate_to_base(base) on a flattened holder whose relocations are the call sites `calls` = [(pos, target)] of .text
    (section 0); tab = id of the address table if one was created.  Effect on the sections: the bytes of .text are patched,
@@ -50,12 +66,12 @@ Definition site_in_bounds (text : section) (c : Z * Z) : bool :=
    the last section in order; nothing else changes.  Answers the holder and RelocationSummary::code_size_reduction.
    Guards: an out-of-bounds site is kInvalidRelocEntry (as in the code); more used slots than reserved ones is the code's
    ASMJIT_ASSERT(reserved_size >= address_table_size), modelled as a refusal. *)
-Definition relocate_holder (h : holder) (tab : option Z) (calls : list (Z * Z)) (base : Z) : (holder * Z) + rerr :=
+Definition relocate_holder (h : holder) (tab : option Z) (calls : list site) (base : Z) : (holder * Z) + rerr :=
   match by_id h 0 with
   | None => inr RInvalidEntry
   | Some text =>
     if negb (forallb (site_in_bounds text) calls) then inr RInvalidEntry else
-    let es := map (site_entry (soff text)) calls in
+    let es := map (site_entry h (soff text)) calls in
     let '(t, atoff, reserved, last) :=
       match tab with
       | Some t => match by_id h t with Some ts => (t, soff ts, svsize ts, is_last h t) | None => (-1, 0, 0, false) end
@@ -78,11 +94,15 @@ Definition emit_call_bytes (st : jstate) (a : Z) : jstate :=
   let st1 := add_address st a in
   mkJ (update_id (jh st1) 0 (fun s => set_sizes s (sbsize s + CALL_LEN) (svsize s) (sdata s ++ CALL_BYTES))) (jtab st1) (jaddrs st1).
 
+(* embed_label into .text: 8 zero bytes, patched by relocation *)
+Definition emit_abs_bytes (st : jstate) : jstate :=
+  mkJ (update_id (jh st) 0 (fun s => set_sizes s (sbsize s + ABS_LEN) (svsize s) (sdata s ++ zeros ABS_LEN))) (jtab st) (jaddrs st).
+
 (* JitRuntime::_add with these relocations: flatten, estimate, relocate to `base`, copy every section and zero-fill to its
    virtual size into the (estimate-sized) span, shrink to estimate - reduction. Answers: error, final size, image. *)
 Inductive jerr := JOk | JLayout (e : err) | JReloc (e : rerr).
 
-Definition jit_add_reloc (st : jstate) (calls : list (Z * Z)) (base fill : Z) : jerr * Z * cmem * holder :=
+Definition jit_add_reloc (st : jstate) (calls : list site) (base fill : Z) : jerr * Z * cmem * holder :=
   match flatten (jh st) with
   | (EOk, h1) =>
     let est := code_size h1 in
